@@ -65,7 +65,11 @@ func observe(z *mpa.Int) string {
 		z.Int64(), z.Sign(), lo.Text(16))
 }
 
-func runMpa(op string, n uint, zmode string, zbits int, xs, ys mspec) (res string) {
+// runMpa performs one call on fresh operands.  The result line carries, next to everything observable of the
+// receiver, what BOTH OPERANDS hold after the call (`xa=`, `ya=`): a call writes its receiver only, the model
+// prints the operands it was given.  `changed` lists the operands whose observation differs from the one
+// taken before the call (the receiver excepted).
+func runMpa(op string, n uint, zmode string, zbits int, xs, ys mspec) (res string, changed []string) {
 	defer func() {
 		if e := recover(); e != nil {
 			res = "panic"
@@ -80,11 +84,22 @@ func runMpa(op string, n uint, zmode string, zbits int, xs, ys mspec) (res strin
 	case "x":
 		z = x
 	}
+	xb, yb := observeSafe(x), observeSafe(y)
+	after := func() string {
+		xa, ya := observeSafe(x), observeSafe(y)
+		if xa != xb && !(zmode == "x" && op != "obs" && op != "cmp") {
+			changed = append(changed, fmt.Sprintf("x: before {%s} after {%s}", xb, xa))
+		}
+		if ya != yb {
+			changed = append(changed, fmt.Sprintf("y: before {%s} after {%s}", yb, ya))
+		}
+		return " xa=[" + xa + "] ya=[" + ya + "]"
+	}
 	switch op {
 	case "obs":
-		return "ok " + observe(x)
+		return "ok " + observe(x) + after(), changed
 	case "cmp":
-		return fmt.Sprintf("ok c=%d", x.Cmp(y))
+		return fmt.Sprintf("ok c=%d", x.Cmp(y)) + after(), changed
 	case "add":
 		z.Add(x, y)
 	case "sub":
@@ -108,9 +123,9 @@ func runMpa(op string, n uint, zmode string, zbits int, xs, ys mspec) (res strin
 	case "rsh":
 		z.Rsh(x, n)
 	default:
-		return "bad-op"
+		return "bad-op", nil
 	}
-	return "ok " + observe(z) + fmt.Sprintf(" c=%d", z.Cmp(y))
+	return "ok " + observe(z) + fmt.Sprintf(" c=%d", z.Cmp(y)) + after(), changed
 }
 
 var mpaOps = []string{"add", "sub", "mul", "div", "mod", "and", "or", "xor", "andnot", "lsh", "rsh", "cmp", "obs"}
@@ -196,7 +211,8 @@ func modeMpa(cf *hxlib.CommonFlags, o *hxlib.Out) {
 	for _, l := range [][2]mspec{{{"n", big.NewInt(3), 2}, {"n", big.NewInt(1), 4}}, {{"n", big.NewInt(1), 4}, {"n", big.NewInt(3), 2}},
 		{{"p", big.NewInt(4294967295), 32}, {"p", big.NewInt(7), 64}}} {
 		for _, op := range []string{"div", "mod"} {
-			o.Op(fmt.Sprintf("c12 mpa %s 0 new 128 %s %s", op, l[0], l[1]), runMpa(op, 0, "new", 128, l[0], l[1]))
+			res, _ := runMpa(op, 0, "new", 128, l[0], l[1])
+			o.Op(fmt.Sprintf("c12 mpa %s 0 new 128 %s %s", op, l[0], l[1]), res)
 		}
 	}
 	for i := 0; i < cf.N; i++ {
@@ -232,8 +248,29 @@ func modeMpa(cf *hxlib.CommonFlags, o *hxlib.Out) {
 		if cf.Only >= 0 && i != cf.Only {
 			continue
 		}
-		res := runMpa(op, n, zmode, zbits, xs, ys)
-		o.Op(fmt.Sprintf("c12 mpa %s %d %s %d %s %s", op, n, zmode, zbits, xs, ys), res)
+		res, changed := runMpa(op, n, zmode, zbits, xs, ys)
+		line := fmt.Sprintf("c12 mpa %s %d %s %d %s %s", op, n, zmode, zbits, xs, ys)
+		o.Op(line, res)
+		for _, ch := range changed {
+			zr, pat := "f"+fmt.Sprint(zbits), "z-fresh"
+			if zmode == "x" {
+				zr, pat = "r0", "z==x"
+			}
+			path := "small"
+			if (zmode == "new" && zbits > 64) || (zmode == "x" && strings.Contains(res, "bits=") && func() bool {
+				b := 0
+				fmt.Sscan(obsField(res, "bits"), &b)
+				return b > 64
+			}()) {
+				path = "large"
+			}
+			h := "c12 mpah " + xs.String() + "," + ys.String() + " " + fmt.Sprintf("%s.%d.%s.0.1", op, n, zr)
+			store.add(o, "c12-mpa-operand-changed", map[string]any{
+				"op": op, "stage": pat + " " + path + " operand " + ch[:1], "role": ch[:1], "aliasing": pat, "path": path,
+				"detail": "mpa.Int." + op + " changed its operand " + ch, "mpa_line": line, "mpah_spec": h, "history": h,
+				"replay_cmd": "c12 mpah -extra \"" + strings.TrimPrefix(h, "c12 mpah ") + "\"",
+			})
+		}
 		o.Count("mpa_" + op)
 		if strings.HasPrefix(res, "panic") {
 			o.Count("mpa_panic")
